@@ -65,6 +65,23 @@ pub fn seq_class(s: u64) -> &'static str {
     }
 }
 
+/// presence mask of the six address/port keys (C14 reports how many of the 64 were reached)
+pub fn presence_mask(v: &View) -> u32 {
+    let mut mask = 0u32;
+    for (k, _) in &v.pairs {
+        match k.as_slice() {
+            b"ip" => mask |= 1,
+            b"ip6" => mask |= 2,
+            b"tcp" => mask |= 4,
+            b"tcp6" => mask |= 8,
+            b"udp" => mask |= 16,
+            b"udp6" => mask |= 32,
+            _ => {}
+        }
+    }
+    mask
+}
+
 pub fn abstract_state(v: &View) -> String {
     let size = match v.encoded.len() {
         0..=200 => "S",
@@ -329,6 +346,7 @@ impl<K: BaseKey> DynOwner for Owner<K> {
                 let v = inspect(&rec, cx.deep);
                 Self::flush_panics(cx, "accessors after build");
                 cx.trans(format!("{b}/build/{}/ok/{}", calls.len().min(6), abstract_state(&v)));
+                cx.stat(&format!("c14:presence-mask:{:02x}", presence_mask(&v)));
                 let vstart = cx.viols.len();
                 let mut out = Vec::new();
                 check_view(&v, &self.rcx("built", true), &mut out);
@@ -414,6 +432,7 @@ impl<K: BaseKey> DynOwner for Owner<K> {
         if info.will_fail {
             cx.stat("fault:signer-armed-at-call");
         }
+        cx.stat(&format!("c14:presence-mask:{:02x}", presence_mask(&after)));
 
         match &outcome {
             Outcome::Panic => {
